@@ -17,7 +17,10 @@ pub use neurons::tensor::{Data, Shape, Tensor};
 
 pub mod util;
 pub use util::*;
+pub mod net;
+pub use net::*;
 
+pub mod c01;
 pub mod c02;
 
 /// Boolean formulas over scalars; the claim language shared by both modes.
@@ -100,6 +103,7 @@ pub fn hash_str(s: &str) -> u64 {
 /// All cases of a property for a tier. `seed` rotates the quick-tier subset.
 pub fn select(property: &str, tier: Tier, seed: u64) -> Vec<Case> {
     match property {
+        "C01" => c01::cases(tier, seed),
         "C02" => c02::cases(tier, seed),
         _ => Vec::new(),
     }
